@@ -257,6 +257,18 @@ fn genp(prop: &str, seed: u64, tier: &str) -> Plan {
         ops.push(Op::R { r: 1, k: ReadKind::Read, max: i32::MAX, m: Masks::default(), h: H::None, key: 0 });
     }
     plan.phases.push(phase("workload", false, vec![script(ops)]));
+    if prop == "C18" && r.chance(0.4) {
+        // the writers' participant goes away (gracefully, or silently until its lease expires): what the reader
+        // has received and not taken stays readable
+        let mut dep = if r.chance(0.5) {
+            vec![Op::DeleteContained { kind: "participant".into(), id: 0 }, Op::DeleteParticipant { p: 0 }, Op::Sleep { us: 2_000_000 }]
+        } else {
+            vec![Op::Crash { p: 0 }, Op::Sleep { us: 102_000_000 }]
+        };
+        dep.push(Op::Discovered { p: 1 });
+        dep.push(Op::R { r: 0, k: ReadKind::Read, max: i32::MAX, m: Masks::default(), h: H::None, key: 0 });
+        plan.phases.push(phase("departure", true, vec![script(dep)]));
+    }
     if prop == "C19" {
         // the status must also be readable through the API
         plan.phases.push(phase("status-api", true, vec![script(vec![Op::Status { kind: "reader".into(), id: 0, what: "rejected".into() }])]));
@@ -687,6 +699,22 @@ fn check(plan: &Plan, out: &Outcome, prop: &str) -> Verdict {
                             v.violate("C25", "C25.too-close", "C25.too-close".into(), format!("reader presented seq {} and seq {} of instance {k2} whose source timestamps are {} ns apart, minimum_separation is {} ns", w[0].1, w[1].1, w[1].0 - w[0].0, cfg.tbf_ns));
                         }
                     }
+                }
+            }
+        });
+    }
+    if prop == "C18" && v.violations.is_empty() {
+        // departure phase: every sample the reader held just before is still there afterwards
+        with_hist(|h| {
+            let before: Option<Vec<u32>> = h.recs.iter().rev().find_map(|r| if let (1, Op::R { k: ReadKind::Read, h: H::None, .. }, Res::Samples(res)) = (r.phase, &r.op, &r.res) { Some(res.as_ref().map(|l| l.iter().filter(|s| s.valid).map(|s| s.seq).collect()).unwrap_or_default()) } else { None });
+            let after: Option<Vec<u32>> = h.recs.iter().find_map(|r| if let (2, Op::R { .. }, Res::Samples(res)) = (r.phase, &r.op, &r.res) { Some(res.as_ref().map(|l| l.iter().filter(|s| s.valid).map(|s| s.seq).collect()).unwrap_or_default()) } else { None });
+            let gone = h.recs.iter().any(|r| r.phase == 2 && matches!((&r.op, &r.res), (Op::Discovered { .. }, Res::Handles(Ok(l))) if l.len() <= 1));
+            if let (Some(b), Some(a)) = (before, after) {
+                v.probe("departure_checked", 1);
+                v.probe("departure_seen_by_reader", gone as u64);
+                let lost: Vec<u32> = b.iter().filter(|u| !a.contains(u)).copied().collect();
+                if !lost.is_empty() {
+                    v.violate("C18", "C18.samples-lost-on-writer-departure", "C18.samples-lost-on-writer-departure".into(), format!("the reader held samples {b:?} (received, not taken); after the writer's participant went away a read returns {a:?}: samples {lost:?} disappeared without having been taken"));
                 }
             }
         });
